@@ -290,6 +290,22 @@ def check(ctx: Ctx):
     refine.check_pack(ctx, rules=("PACK", "MODEL", "AFFINE", "FEASIBLE"))
     check_levels(ctx)
     check_objective(ctx)
+    # the candidates may be a one-shot iterable: refine_droplets consumes them once
+    from ..rules import iteronce as _iteronce
+
+    for fi_ in ctx.model.funcs("droplets.image_analysis.refine_droplets"):
+        _iteronce.check_function(ctx, fi_)
+    # the fit compares the model with the image's own values: the selected data are not replaced (clipped, smoothed, rescaled)
+    from ..rules import support as _sup_r12
+
+    def _is_image_selection(v):
+        while isinstance(v, ast.Subscript):
+            v = v.value
+        return isinstance(v, ast.Attribute) and v.attr == "data" and isinstance(v.value, ast.Name) and v.value.id == "phase_field"
+
+    _sup_r12.check_locals_not_rebound_after(ctx, "droplets.image_analysis.refine_droplet", lambda v: isinstance(v, ast.Subscript) and _is_image_selection(v), "OBJECTIVE", "image-values",
+                                            "the image values of the fit region", "the least-squares objective is then the deviation from another image than the one given (e.g. a clipped copy), so the "
+                                            "true deviation over the region can grow and a candidate rendered onto a noisy image is not left alone")
     ctx.expect("OBJECTIVE", 1)
     # the parameter vector and every other working array of the fit are float64 whatever the image's dtype (an integer or
     # boolean image would truncate the candidate's position, radius and width)
